@@ -157,6 +157,19 @@ claim("C12", "exploration",
       "documented precondition (decreasing magnitudes), with |b| <= ulp(a) as non-overlap.",
       "DESIGN.md section 3 C12")
 
+claim("C11", "exploration",
+      "differential monitor of the real compound operations against exact integer arithmetic rounded once; float16 unary ops exhaustive",
+      "next/nextup/nextdown and is_power_of_two are enumerated over every float16 value of their documented domains (and powers of two +-3 ulps in every "
+      "binade for float32/64); add_3sum (exactness of (s,e,t) and 1 ULP), add_4sum (1), mul_add (2), dot2 (3) and every emulated-fma variant "
+      "(a7/a8/a9/apmath x fix_overflow x possibly_zero_z; apmath_algorithms.fma_real through NumpyContext and apmath.fma traced, emitted for the "
+      "NumPy target and run on arrays, with scale on/off) are run on directed tuples - z = -RN(xy) +- k ulp, exact-tie constructions where only the "
+      "product's error term decides the rounding, short-mantissa products, binade edges, z = 0, products near overflow/underflow - and compared on the "
+      "float lattice with RN of the exact result.",
+      "Trusted: vf.exact. Domains are the documented ones; mul_add/dot2 additionally need their Dekker products on the C10 domain (error term representable); "
+      "without fix_overflow the documented nan-on-internal-overflow caveat is honoured by judging those variants where no intermediate overflows. Known finding "
+      "KF-C11-fma-overflow-fallback (fix_overflow=True drops the product's error term).",
+      "DESIGN.md section 3 C11")
+
 SOURCE_COMMITS = []
 
 
